@@ -1876,6 +1876,10 @@ def bipartite_random_regular(l, r, d, seed=None):
                     break
             if failure:
                 return bipartite_random_regular(l, r, d)
+            # use the available edge just found
+            G.add_edge(A[ea], B[eb])
+            A[i], A[ea] = A[ea], A[i]
+            B[i], B[eb] = B[eb], B[i]
 
     return G
 
